@@ -52,6 +52,10 @@ def run(chk, nseq):
         hists.sort(key=lambda h: -sum(1 for a in h if a["op"] in ("ann", "req", "chunk")))
         pick = hists[: nseq // 2] + chk.rng.sample(hists[nseq // 2:], min(len(hists) - nseq // 2, nseq // 2)) if len(hists) > nseq else hists
         beh += [to_script(h, n) for h in pick]
+    return execute(chk, beh, 3 if thorough else 2)
+
+
+def execute(chk, beh, nmax=2):
     b = vlib.build("system")["system"]
     wd = vlib.workdir("system-%s" % chk.pid)
     script, trace = os.path.join(wd, "script.txt"), os.path.join(wd, "trace.ndjson")
@@ -76,11 +80,11 @@ def run(chk, nseq):
             f.write(json.dumps(e) + "\n")
     res = vlib.validate("NodeTtlTrace", per_node, timeout=1800)
     nomatch = sum(1 for e in events if e["op"] == "nomatch")
-    chk.add_traces(len(streams), len(flat), res, "System.tla schedules on %d-node clusters (per-node streams)" % (3 if thorough else 2))
+    chk.add_traces(len(streams), len(flat), res, "System.tla schedules on %d-node clusters (per-node streams)" % nmax)
     chk.cov["system_schedule_steps_without_matching_message"] = nomatch
     for e in flat:
         chk.nontrivial(["sys", e["op"], e.get("via"), e.get("res"), e.get("ok"), e.get("cleaned"), len(e["proj"]["chunks"]), len(e["proj"]["pend"])])
-    vlib.report_trace_violations(chk, res, flat, label="System.tla schedules on real nodes")
+    vlib.report_trace_violations(chk, res, flat, label="System.tla schedules on real nodes", behaviours=beh, harness="system")
     log("[system] %d behaviours, %d node streams, %d events, %d clause failures, %d schedule steps without a matching message in flight" % (
         len(beh), len(streams), len(flat), len(res["viol"]), nomatch))
     return res
